@@ -89,6 +89,25 @@ def level_selectors(nlev):
 def box_selectors(nb, rich=True, maxlist=3):
     """Yield (tag, class, list of box ids or int or None)."""
     ids = list(range(nb))
+    if nb > 6:
+        # many boxes: the complete alphabets are astronomically large; a fixed menu that contains every FORM
+        for i in (0, nb - 1, nb // 2, -1, -nb, nb, -nb - 1):
+            c = _cls_int(i, nb)
+            yield ["int", i], c, (ids[i] if c != "C" else None)
+        for a, b, s in ((None, None, None), (None, None, 2), (1, None, 3), (None, None, -1), (5, nb - 3, None), (nb - 2, None, None),
+                        (None, 9, None), (3, nb - 1, 4), (-5, None, None)):
+            sel = ids[slice(a, b, s)]
+            yield ["slice", a, b, s], ("A" if (s in (None, 1, 2, 3, 4) and len(sel) > 0) else "B"), sel
+        rot = ids[1:] + ids[:1]
+        for L in (rot, [nb - 1, 0, nb // 2], ids[::3], [nb // 2, nb // 2 + 1, 2], list(reversed(ids))):
+            yield ["list", list(L)], "A", [ids[v] for v in L]
+            yield ["array", list(L)], "A", [ids[v] for v in L]
+        yield ["list", [0, nb]], "C", None
+        for m in ([bool(i % 2) for i in ids], [i < nb // 2 for i in ids], [i % 5 == 3 for i in ids], [True] * nb):
+            yield ["mask", list(m)], "A", [i for i in ids if m[i]]
+            yield ["maskarr", list(m)], "A", [i for i in ids if m[i]]
+        yield ["maskarr", [True] * (nb + 1)], "C", None
+        return
     for i in range(-nb - 1, nb + 1):
         c = _cls_int(i, nb)
         yield ["int", i], c, (ids[i] if c != "C" else None)
